@@ -140,9 +140,38 @@ pub fn clip_vertex() -> BoxedStrategy<[f32; 4]> {
         .boxed()
 }
 
+/// A vertex a small relative distance (1e-4 .. 3e-2 of its w) inside or outside one frustum plane, otherwise inside.
+fn near_plane_vertex() -> BoxedStrategy<[f32; 4]> {
+    (0.2f32..4.0, 0usize..6, log_uniform(-4.0, -1.5), any::<bool>(), -0.9f32..0.9, -0.9f32..0.9).prop_map(|(w, pl, d, outside, a, b)| {
+        let r = if outside { 1.0 + d } else { 1.0 - d };
+        let r = if pl % 2 == 0 { -r } else { r };
+        let mut v = [a * w, b * w, 0.3 * w, w];
+        match pl / 2 {
+            0 => v[2] = r * w,
+            1 => v[0] = r * w,
+            _ => v[1] = r * w,
+        }
+        if pl / 2 != 0 {
+            v[2] = b * w;
+            v[if pl / 2 == 1 { 1 } else { 0 }] = a * w;
+        }
+        v
+    }).boxed()
+}
+
+/// A vertex two to three decades further from the eye (|w| 100..3000, either sign), anywhere relative to the frustum.
+fn far_vertex() -> BoxedStrategy<[f32; 4]> {
+    (log_uniform(2.0, 3.5), any::<bool>(), -1.6f32..1.6, -1.6f32..1.6, -1.6f32..1.6).prop_map(|(w, neg, x, y, z)| [x * w, y * w, z * w, if neg { -w } else { w }]).boxed()
+}
+
 pub fn clip_tri() -> BoxedStrategy<[[f32; 4]; 3]> {
     prop_oneof![
         10 => [clip_vertex(), clip_vertex(), clip_vertex()],
+        // vertices of very different magnitudes ("coordinates within a few decades of each other"): a plane crossing a
+        // tiny fraction of the way along an edge, next to a vertex that is just inside or just outside
+        1 => ([near_plane_vertex(), far_vertex(), far_vertex()], 0usize..3).prop_map(|(mut t, k)| { t.rotate_left(k); t }),
+        1 => ([near_plane_vertex(), near_plane_vertex(), far_vertex()], 0usize..3).prop_map(|(mut t, k)| { t.rotate_left(k); t }),
+        1 => ([near_plane_vertex(), clip_vertex(), far_vertex()], 0usize..6).prop_map(|(t, k)| { let mut t = t; if k >= 3 { t.swap(1, 2); } t.rotate_left(k % 3); t }),
         // all three well inside (emitted unchanged)
         1 => [inside_vertex(), inside_vertex(), inside_vertex()],
         // two vertices shared position (degenerate) or an exact duplicate
@@ -284,13 +313,13 @@ pub fn check_one(ty: &str, pos: &[[X; 4]; 3], attr: &[[X; 3]; 3], outs: &[OutTri
     });
 
     // (2) output inside the frustum, beyond rounding
-    let eps = 2e-5 * scale;
+    let eps = 2e-6 * scale;
     for (k, t) in outs.iter().enumerate() {
         for v in t {
             ensure!(v.pos.iter().all(|c| c.is_finite()) && v.attr.iter().all(|c| c.is_finite()), "non-finite-output", "output triangle {k} has a non-finite vertex {v:?}");
             let d = plane_dists(to64(v.pos));
             for i in 0..6 {
-                obs.max("output-vertex-outside-plane / (2e-5*scale)", d[i] / eps);
+                obs.max("output-vertex-outside-plane / (2e-6*scale)", d[i] / eps);
                 ensure!(d[i] <= eps, "output-outside-frustum", "output triangle {k} vertex {:?} is {:.3e} outside the {} plane (scale {scale:.3})", v.pos, d[i], PLANE_NAMES[i]);
             }
         }
@@ -330,12 +359,12 @@ pub fn check_one(ty: &str, pos: &[[X; 4]; 3], attr: &[[X; 3]; 3], outs: &[OutTri
         return Ok(());
     }
 
-    let tol_l = 2e-5 / cond.min(1.0); // chart-coordinate tolerance
+    let tol_l = 4e-6 / cond.min(1.0); // chart-coordinate tolerance
     for (k, (t, c)) in outs.iter().zip(&charts).enumerate() {
         for (v, (l, res)) in t.iter().zip(c) {
             // (1) output ⊂ input
-            obs.max("chart-residual / (2e-5*scale)", res / (2e-5 * scale));
-            ensure!(*res <= 2e-5 * scale, "output-off-input-plane", "output triangle {k} vertex {:?} is {:.3e} away from the input triangle's plane (scale {scale:.3})", v.pos, res);
+            obs.max("chart-residual / (2e-6*scale)", res / (2e-6 * scale));
+            ensure!(*res <= 2e-6 * scale, "output-off-input-plane", "output triangle {k} vertex {:?} is {:.3e} away from the input triangle's plane (scale {scale:.3})", v.pos, res);
             let l0 = 1.0 - l[0] - l[1];
             let lmin = l0.min(l[0]).min(l[1]);
             obs.max("negative-barycentric / tolerance", -lmin / tol_l);
@@ -345,7 +374,7 @@ pub fn check_one(ty: &str, pos: &[[X; 4]; 3], attr: &[[X; 3]; 3], outs: &[OutTri
                 let expect = l0 * a[0][j] + l[0] * a[1][j] + l[1] * a[2][j];
                 let lo = a.iter().map(|x| x[j]).fold(f64::MAX, f64::min);
                 let hi = a.iter().map(|x| x[j]).fold(f64::MIN, f64::max);
-                let tol = (hi - lo) * tol_l * 2.0 + 1e-5 * lo.abs().max(hi.abs()) + 1e-7;
+                let tol = (hi - lo) * tol_l * 2.0 + 2e-6 * lo.abs().max(hi.abs()) + 1e-7;
                 let e = (v.attr[j] as f64 - expect).abs();
                 obs.max("attribute-error / tolerance", e / tol);
                 ensure!(
